@@ -56,6 +56,17 @@ def selectCols (n : Nat) : Option (List Nat) → List Nat
   | none => List.range n
   | some l => (List.range n).filter (fun i => l.contains i)
 
+/-- the same selection on NAMES, as the code makes it: `parameter_names` holds the names the caller knows —
+    the PUBLIC names (`parameters()`, user-defined through `set_parameter_names`; `shown[i]` is the
+    displayed name of the model's `i`-th parameter) — and the model's `i`-th parameter is selected when its
+    public name is among them -/
+def selectByNames (shown : List String) (requested : List String) : List Nat :=
+  (List.range shown.length).filter (fun i => requested.contains (shown.getD i ""))
+
+/-- what `ReducedMechanisticModel.enable_sensitivities` passes: the published names of the free parameters -/
+def requestedNames (shown : List String) (free : List Nat) : List String :=
+  free.map (fun i => shown.getD i "")
+
 /-- `SBMLModel.enable_sensitivities`; `names = none` is `parameter_names=None`.  A new solver is built
     without protocol: it matches the model's regimen exactly when there is none. -/
 def sbmlEnable (s : St) (enabled : Bool) (names : Option (List Nat)) : Except Unit St :=
